@@ -34,6 +34,8 @@ func runC04(p *Program, r *Report) {
 	ruleFormatCodes(p, r, "R04.9")
 	r.Rule("R04.10", "E2", 6, "the shared configuration is read-only for the statement handlers: a slice handed out by the table schema (TableSchema.Columns, the schema store's listings) is never the base of an append and never stored into by the packages that process statements and rows - the schema store is shared by every session, so a write through such a slice changes the configured column order for all later statements")
 	ruleR0410(p, r)
+	r.Rule("R04.11", "E3", 1, "a Bind whose values could not be protected is not forwarded: in PgProxy.handleBindPacket every return on the error edge of the observers' OnBind returns that error (the caller then ends the session instead of writing the packet to the database); returning nil there sends the client's plaintext parameters on")
+	ruleR0411(p, r)
 	r.Rule("R04.5", "E3", 1, "the settings-only MySQL query observer never encrypts: every path to the data encryptor of encryptor/mysql.QueryDataEncryptor passes the 'encryptor == nil' guard, in the function or in all of its callers")
 	ruleR045(p, r)
 }
@@ -753,4 +755,35 @@ func ruleR0410(p *Program, r *Report) {
 
 func init() {
 	mut("C04", "INSERT column list built by re-slicing the schema's own column list", "encryptor/postgresql/queryDataEncryptor.go", "	} else if cols := schema.Columns(); len(cols) > 0 {\n		columnsName = cols\n	}", "	} else if cols := schema.Columns(); len(cols) > 0 {\n		columnsName = append(cols[:0], cols...)\n	}", "R04.10", "append onto")
+}
+
+// ---- R04.11
+func ruleR0411(p *Program, r *Report) {
+	fn := p.Func("decryptor/postgresql.(*PgProxy).handleBindPacket")
+	if fn == nil || fn.Blocks == nil {
+		r.Anchor("R04.11", "PgProxy.handleBindPacket")
+		return
+	}
+	var onBind *ssa.Call
+	for _, cs := range callsIn(fn) {
+		if c, ok := cs.Instr.(*ssa.Call); ok && cs.Instr.Common().IsInvoke() && cs.Instr.Common().Method.Name() == "OnBind" {
+			onBind = c
+		}
+	}
+	if onBind == nil {
+		r.Anchor("R04.11", "OnBind call in handleBindPacket")
+		return
+	}
+	errv := extractOf(onBind, 2)
+	bad := ""
+	for _, i := range allIfs(fn) {
+		if _, nn, ok := nilBranches(i, errv); ok {
+			for _, ret := range returnsOf(fn) {
+				if nn.Dominates(ret.Block()) && isNilConst(retValue(ret, 1)) {
+					bad = "return with a nil error at " + p.Pos(ret.Pos())
+				}
+			}
+		}
+	}
+	r.Check(bad == "", "R04.11", fnName(fn), "OnBind failure is not answered by forwarding the Bind", p.Pos(onBind.Pos()), "every return on the error edge returns the error", bad+" on the error edge of OnBind: the Bind is written to the database with the client's parameters as they came, in clear")
 }
